@@ -422,7 +422,8 @@ def handle (line : String) : String :=
   match line.trimAscii.toString.splitOn " " with
   | ["data", n] => orBad do
       let n ← n.toNat?
-      match Data.tryNew (List.replicate n 0) with
+      -- blocks too large to build as a list: the verdict by length (`Data.tryNew_verdict`)
+      match (if n ≤ 4096 then (Data.tryNew (List.replicate n 0)).map (fun _ => ()) else Data.tryNewLen n) with
       | .ok _ => pure "ok"
       | .error e => pure (showFrameErr e)
   | ["enc", a, ty, d] => orBad do
